@@ -63,6 +63,20 @@ def js(s, ctr=None):
         if s[3] is not None:
             out += f" finally {blk(s[3])}"
         return out
+    if k == "fn":
+        # ("fn", kind, tag, body): a nested function called at once; its return value is logged
+        body = js(s[3])
+        if s[1] == "arrow":
+            f = f"(() => {{ {body} return '{s[2]}n'; }})()"
+        elif s[1] == "funcexpr":
+            f = f"(function () {{ {body} return '{s[2]}n'; }})()"
+        elif s[1] == "callback":
+            f = f"[0].map(function (q) {{ {body} return '{s[2]}n'; }})[0]"
+        elif s[1] == "getter":
+            f = f"({{get p() {{ {body} return '{s[2]}n'; }}}}).p"
+        else:
+            raise ValueError(s[1])
+        return f"L('{s[2]}:' + {f});"
     if k == "break":
         return "break" + (f" {s[1]}" if s[1] else "") + ";"
     if k == "continue":
@@ -142,6 +156,19 @@ class Ref:
                     raise
         elif k == "try":
             self.do_try(s)
+        elif k == "fn":
+            # a function boundary: return leaves the nested function only, break/continue cannot cross it
+            try:
+                self.run(s[3])
+                v = s[2] + "n"
+            except Completion as c:
+                if c.kind == "return":
+                    v = "undefined" if c.value is None else c.value
+                elif c.kind == "throw":
+                    raise
+                else:
+                    raise Completion("syntax")
+            self.log.append(f"{s[2]}:{v}")
         elif k == "break":
             raise Completion("break", label=s[1])
         elif k == "continue":
@@ -230,7 +257,7 @@ def expected(prog):
         elif c.kind == "throw":
             out = ("throw", c.value)
         else:
-            out = ("syntax", None)        # break/continue with no target
+            out = ("syntax", None)        # break/continue with no target (or across a function boundary)
     return r.log, out
 
 
@@ -268,6 +295,12 @@ def wrappers(tagger):
         "in-catch-nofinally": lambda h: ("try", ("throw", t("th")), ("seq", [h, ("log", t("ca"))]), None),
         "in-finally": lambda h: ("try", ("log", t("tb")), None, ("seq", [h, ("log", t("fa"))])),
         "in-finally-after-throw": lambda h: ("try", ("throw", t("th")), None, ("seq", [h, ("log", t("fa"))])),
+        # function boundaries nested in the construct: the exits of the inner function must not touch the contexts
+        # (loops, handlers, finally blocks) of the code around it
+        "arrow": lambda h: ("fn", "arrow", t("ar"), ("seq", [("log", t("ab")), h])),
+        "funcexpr": lambda h: ("fn", "funcexpr", t("fe"), ("seq", [("log", t("fb")), h])),
+        "callback": lambda h: ("fn", "callback", t("cb"), ("seq", [("log", t("kb")), h])),
+        "getter": lambda h: ("fn", "getter", t("gt"), ("seq", [("log", t("gb")), h])),
     }
     return W
 
